@@ -97,6 +97,7 @@ def third_party(a):
         addOpenTypeFeaturesFromString(fb.font, """languagesystem DFLT dflt;
 markClass mark <anchor 30 700> @TOP;
 feature kern { pos A B -50; pos B A -30; pos B B 10; pos L A -20; pos T L 15; } kern;
+feature calt { lookup swap { sub L by T; } swap; sub [L B]' lookup swap [A T]; } calt;
 feature mark { pos base A <anchor 500 720> mark @TOP; pos base B <anchor 350 710> mark @TOP; pos base L <anchor 120 640> mark @TOP; pos base T <anchor 480 705> mark @TOP; } mark;
 table GDEF { GlyphClassDef [A B L T], , [mark], ; } GDEF;""")
         # plain glyphs (L, T) are bases and kerning partners too: when the SVG table is glued on, colour glyphs move
